@@ -3,6 +3,7 @@
 set -u
 NAME=$1; PROP=$2; WT=$3
 export GOFLAGS=-mod=mod GOPROXY=off GOSUMDB=off GOTOOLCHAIN=local
+if [ -n "$(git -C /repo status --porcelain)" ]; then echo "seedcheck: /repo has uncommitted changes; commit them first"; exit 3; fi
 D=/verif/seeded/$NAME; mkdir -p $D
 cp $WT/patch.diff $D/patch.diff; cp $WT/demo_test.go.txt $D/demo_test.go.txt
 # confirm in a clean scratch worktree
